@@ -17,6 +17,12 @@ RULE = (
     "middle element (0 < position < used-1); labels additionally count alloc refused because all identifiers are in "
     "use, free racing free_idx, clear together with alloc/free"
 )
+RULE += (
+    "  In one case of three a SECOND, independent caller (its own transaction) of one exclusive method (alloc / free / free_idx) requests "
+    "in some of the cycles in which the first caller does, with the same arguments: at most one of the two may be served "
+    "and the outcome must be that of a single request."
+)
+
 ASSUMPTIONS = [
     "amaranth.sim.Simulator is the trusted execution model",
     "readiness is judged behaviourally: a requested call that is not accepted counts as 'not ready'",
